@@ -294,4 +294,11 @@ VARIANTS = [
      '    symlink_dirs = get_symlink_dirs(id_, run_dir)\n    if rm_dirs is not None:',
      '    symlink_dirs = get_symlink_dirs(id_, run_dir)\n    if not run_dir.name:\n        os.remove(run_dir)\n    if rm_dirs is not None:',
      'C38.deleters'),
+    ('glob-single-match-shortcut', 'cylc/flow/clean.py',
+     '''    if len(matches) == 1 and not os.path.lexists(matches[0]):
+        # https://bugs.python.org/issue35201
+        return []''',
+     '''    if len(matches) <= 1:
+        return [path for path in matches if os.path.lexists(path)]''',
+     'C38.glob'),
 ]
